@@ -133,6 +133,13 @@ func rcGen(r *rng.R, id int, o rcOpts) *rcCase {
 	} else {
 		ty.WriteString(fmt.Sprintf("type %[1]sInA struct {\n\tV %[4]s\n\tW int\n%[2]s}\ntype %[1]sInB struct {\n\tV %[5]s\n\tW int\n%[3]s}\n", p, recS, recT, leafS, leafT))
 	}
+	// an embedded struct on both sides (the field is named after the type: the target's twin lives in the other package);
+	// its conversion goes through a helper, the error path names the embedded field like any other
+	embedded := r.Chance(18)
+	if embedded {
+		ty.WriteString(fmt.Sprintf("type %[1]sEmb struct {\n\tEV %[2]s\n\tEW int\n}\n", p, leafS))
+		q.WriteString(fmt.Sprintf("type %[1]sEmb struct {\n\tEV %[2]s\n\tEW int\n}\n\n", p, leafT))
+	}
 	// enums
 	ty.WriteString(fmt.Sprintf("type %[1]sCol int\nconst (\n\t%[1]sColRed %[1]sCol = iota\n\t%[1]sColGreen\n\t%[1]sColBlue\n)\n", p))
 	// the target enum lives in the other package, so that its members can carry the same names
@@ -239,6 +246,15 @@ func rcGen(r *rng.R, id int, o rcOpts) *rcCase {
 		}
 	}
 	sb.WriteString(fmt.Sprintf("\tDet *%[1]sDet\n\tVal %[1]sDet\n", p))
+	if embedded {
+		sb.WriteString("\t" + p + "Emb\n")
+		tb.WriteString("\tq." + p + "Emb\n")
+	}
+	// a method of the by-value sub struct found through autoMap
+	autoVal := r.Chance(14)
+	if autoVal {
+		tb.WriteString("\tLabel string\n")
+	}
 	if caseTwins {
 		sb.WriteString("\tKey string\n\tUuid string\n")
 		tb.WriteString("\tUUID string\n\tUuid string\n")
@@ -276,6 +292,9 @@ func rcGen(r *rng.R, id int, o rcOpts) *rcCase {
 	tgtMethods := r.Chance(35)
 	if tgtMethods {
 		ty.WriteString(fmt.Sprintf("func (t %[1]sT) Validate() error { return nil }\nfunc (t *%[1]sT) Display() string { return \"\" }\n", p))
+	}
+	if autoVal {
+		ty.WriteString(fmt.Sprintf("func (d %sDet) Label() string { return d.Name }\n", p))
 	}
 	if srcMethod {
 		if r.Bool() {
@@ -370,7 +389,9 @@ func rcGen(r *rng.R, id int, o rcOpts) *rcCase {
 		if r.Chance(4) {
 			out = append(out, "map F0 "+rng.Pick(r, []string{"Validate", "Display", "Nope"}))
 		}
-		if r.Chance(10) {
+		if autoVal && r.Chance(90) {
+			out = append(out, "autoMap Val")
+		} else if r.Chance(10) {
 			out = append(out, "autoMap "+rng.Pick(r, []string{"Det", "Val", "Det.Deep", "Val.Deep"}))
 		}
 		if withFns && ch(12, o.Default) {
